@@ -99,6 +99,12 @@ def run(ctx):
         texts = texts[ctx.seed % 4::4]
     texts += [(t, (2018, 3, 7, 12, 43)) for t in ["tomorrow 8pm", "monday 9-5", "5.3.2021 9:00 - 10:30", "next friday at noon",
                                                    "3 days", "31.12. 23:59", "call mom tomorrow 8pm"]]
+    # every grammar production with letters in it (am/pm markers, weekday, month, part-of-day and unit words ...)
+    from .c09 import grammar_exprs
+    texts += [(t, (2018, 3, 7, 12, 43)) for t in grammar_exprs(rnd, ctx.quick) if any(c.isalpha() for c in t)]
+    for h in (12, 0, 8, 11):
+        for f in ("%dam", "%d am", "%d:30 a.m.", "%dpm", "%d:15 pm", "%d uhr", "%dh"):
+            texts.append((f % h, (2018, 3, 7, 12, 43)))
     cases = []
     for t, ts in texts:
         words = t.split(" ")
